@@ -454,6 +454,14 @@ def _run(sc, tape):
                          (sc['service'] != 'wmsc' and len(l['body']) != len(body))):
                     raise Bad('etag-unchanged-after-rewrite', '%s: the tile was rewritten with different content but still has the '
                               'ETag %r: a client revalidating its old copy is answered 304' % (what, l['etag']))
+                # the rewrite happened at least two seconds after the previous write: its Last-Modified has to move on
+                covering = [e for e in http.log if e['ok'] and e.get('bbox') and U.covers(e['bbox'], coords[u])]
+                if 0 < l['epoch'] <= len(covering) and ep <= len(covering) and not sc.get('cascade'):
+                    t_prev, t_cur = covering[l['epoch'] - 1]['t1'], covering[ep - 1]['t1']
+                    if l['body'] != body and t_cur - t_prev >= 2.0 and l['lm'] is not None and l['lm'] == hd.get('last-modified'):
+                        raise Bad('last-modified-unchanged-after-rewrite', '%s: the tile was rewritten %.1f s after the previous '
+                                  'write with different content but still reports Last-Modified %r: If-Modified-Since with the date '
+                                  'of the old copy is answered 304' % (what, t_cur - t_prev, l['lm']))
             last[u] = {'epoch': ep, 'etag': hd.get('etag'), 'lm': hd.get('last-modified'), 'body': body, 'val': val}
         return kind, val
 
